@@ -11,4 +11,7 @@ CONSTANTS
   MidCrash = FALSE
   Timeouts = FALSE
   MaxWriteFaults = 0
+  MaxReadFaults = 0
+  ReadKinds = {}
+  ReadFix = FALSE
 PROPERTY HighestMonotone
